@@ -77,7 +77,7 @@ theorem step_inv (cfg : Cfg) (decls : List (List Var)) (hd : ∀ ds ∈ decls, d
               cbs := readCbs (step cfg s e k).1 } = true := by
   cases e with
   | start svc t =>
-    simp only [evInScope, Bool.not_eq_true'] at hsc
+    simp only [evInScope] at hsc
     obtain ⟨hc, hinv⟩ := inv_start decls s js inv svc t hsc
     simp only [step, hc, Bool.false_eq_true, if_false, advance, outOk]
     exact ⟨hinv, trivial⟩
